@@ -378,6 +378,45 @@ def check(fx, rep, tier):
         bad = [e for e in eps if e[1] != "key"]
         rep.oblige(not bad, "R05.5", f"hash-to-constant:{F.strip_generics(b['def'])}", F.loc(b["span"]), f"`{b['def']}` replaces a hash by a computed constant and is reachable through {[(F.strip_generics(e[0]).split('::')[-1], e[1]) for e in bad][:2]}: constants computed from look-alike hashes outside a storage key can become slots", sample={"rule": "R05.5", "fn": b["def"], "entries": [(F.strip_generics(e[0]).split('::')[-1], e[1]) for e in eps]})
     rep.extra["hash_to_constant_functions"] = n55
+    # ... and the constant is the hash of the WHOLE pre-image: when the words handed to the hashing helper were collected with an
+    # adaptor that can drop elements (non-constant words skipped), the path to the call compares their number with the number of
+    # values hashed by the program. The hash of a subset is a slot the program never computes.
+    hashers = set()
+    for hb in fx.fn_bodies():
+        if hb.get("hir") and not hb.get("from_expansion") and any((F.callee_def(c) or "").startswith(("sha3::Digest::", "tiny_keccak::", "sha3::")) or "keccak" in (F.callee_def(c) or "").lower() for c, _ in F.calls(hb["hir"]["value"])):
+            hashers.add(F.strip_generics(hb["def"]))
+    DROP = ("flat_map", "filter_map", "filter", "take", "skip", "take_while", "skip_while", "step_by", "unique", "dedup", "flatten", "map_while")
+    n_pre = 0
+    for b in lift_fns:
+        root = b["hir"]["value"]
+        mutated = None
+        for c, cps in F.calls(root):
+            if c.get("k") != "Call" or F.strip_generics(F.callee_def(c) or "") not in hashers or not c["args"]:
+                continue
+            if mutated is None:
+                mutated = T.mutated_locals(root)
+            env = T.env_at(cps, c, mutated)
+            w = T.term(c["args"][0], env, mutated)
+
+            def drops(t):
+                return any(st[0] == "call" and isinstance(st[1], str) and F.strip_generics(st[1]).split("::")[-1].split("<")[0] in DROP for st in T.subterms(t))
+
+            n_pre += 1
+            ordn = sum(1 for x in rep.instances.get("R05.5", []) if x.startswith(f"whole-preimage:{F.strip_generics(b['def'])}#")) + 1
+            if not drops(w):
+                rep.oblige(True, "R05.5", f"whole-preimage:{F.strip_generics(b['def'])}#{ordn}", F.loc(c["span"]), "", sample={"rule": "R05.5", "fn": b["def"], "words": "not filtered"})
+                continue
+            conds = [(T.term(cond, env, mutated), holds) for cond, holds in T.path_conditions(cps, c)]
+            ok = False
+            for atoms, opname in ((T.entailed_atoms(conds), "Eq"), (T.entailed_atoms(conds, want_false=True), "Ne")):
+                for a in atoms:
+                    if isinstance(a, tuple) and a[0] == "bin" and a[1] == opname:
+                        sides = [a[2], a[3]]
+                        lens = [x for x in sides if x[0] == "call" and isinstance(x[1], str) and F.strip_generics(x[1]).split("::")[-1] == "len"]
+                        if len(lens) == 2 and drops(lens[0]) != drops(lens[1]):
+                            ok = True
+            rep.oblige(ok, "R05.5", f"whole-preimage:{F.strip_generics(b['def'])}#{ordn}", F.loc(c["span"]), f"`{b['def']}` hashes words that were collected with an element-dropping adaptor without comparing their number with the number of hashed values: when some words of the pre-image are not constants the remaining ones are hashed on their own, and that hash - which the program never computes - becomes a slot", sample={"rule": "R05.5", "fn": b["def"], "words": "filtered, length compared"})
+    rep.floor("R05.5", n_pre, 2, "calls of the constant-hashing helper in the lifting passes")
     # ---------------------------------------------------------------- R05.7
     check_fresh_run(fx, rep, "R05.7")
     # ---------------------------------------------------------------- R05.6 (shared with C08)
